@@ -299,7 +299,10 @@ def main(tier):
     kinds = set()
     real_judge = props.judge
 
+    only = os.environ.get("VERIF_SELFTEST_ONLY", "")
     for pid in sorted(props.PROPS):
+        if only and pid not in only.split(","):
+            continue
         ctx = vf.Ctx(pid, "quick", int(os.environ.get("VERIF_SEED", "1")))
         ctx.run = ctx.run + ".selftest"
         os.makedirs(ctx.run, exist_ok=True)
